@@ -92,6 +92,16 @@ func (th *Thread) atomicSync(p Ptr) {
 	th.m.hbRelease(th, k)
 }
 
+
+// unlockPoint: pseudo yield point 11 - a scheduling point right after a lock is released, so that
+// code which keeps using what the lock protected after releasing it is interleaved with the next
+// holder. Off unless the harness instance enables bit 11 of yieldMask (it multiplies schedules).
+func (m *Machine) unlockPoint(th *Thread) {
+	if m.H.Yields != nil && m.H.Yields[11] {
+		m.yield(th, "after unlock")
+	}
+}
+
 func buildIntrinsics() map[string]Intrinsic {
 	I := map[string]Intrinsic{}
 	T := func(th *Thread) *term.Table { return th.m.T }
@@ -336,6 +346,7 @@ func buildIntrinsics() map[string]Intrinsic {
 		}
 		st.locked = false
 		m.hbRelease(th, mutexKey{s})
+		m.unlockPoint(th)
 		return nil
 	}
 	I["(*sync.RWMutex).Lock"] = func(th *Thread, fn *ssa.Function, a []Value) Value {
@@ -357,6 +368,7 @@ func buildIntrinsics() map[string]Intrinsic {
 		}
 		st.locked = false
 		m.hbRelease(th, mutexKey{s})
+		m.unlockPoint(th)
 		return nil
 	}
 	I["(*sync.RWMutex).RLock"] = func(th *Thread, fn *ssa.Function, a []Value) Value {
@@ -377,6 +389,7 @@ func buildIntrinsics() map[string]Intrinsic {
 		st.readers--
 		st.rOwners[th.id]--
 		m.hbRelease(th, mutexRKey{s})
+		m.unlockPoint(th)
 		return nil
 	}
 	I["(*sync.Pool).Get"] = func(th *Thread, fn *ssa.Function, a []Value) Value {
